@@ -25,9 +25,22 @@ if os.path.exists(dl):
            "exit": 1 if "VIOLATION" in t else (2 if "UNDECIDED" in t else 0),
            "refuted_obligations": sorted(set(re.findall(r"refuted obligation (\w+)", t))),
            "violation_lines": re.findall(r"^VIOLATION.*$", t, re.M)[:4]}
+earlier = None
+mp = os.path.join(dst, "meta.json")
+if os.path.exists(mp):
+    try:
+        old = json.load(open(mp))
+        earlier = old.get("earlier_detection")
+        od = old.get("detection", {})
+        if od and det and od.get("exit") != det.get("exit") and od.get("exit") in (0, 2):
+            earlier = {"exit": od.get("exit"), "note": "before the checks were strengthened (see DESIGN.md section 9)"}
+    except Exception:
+        pass
 out = {"property": pid, "breaks": meta.get("why_property_breaks"), "what_changes": meta.get("what_changes"),
        "needs_to_manifest": meta.get("what_it_needs_to_manifest"), "files_touched": meta.get("files_touched"),
        "author": "independent sub-agent given only the property text and a scratch worktree",
        "agent_commands_run": meta.get("commands_run"), "my_confirmation": conf, "detection": det}
+if earlier:
+    out["earlier_detection"] = earlier
 json.dump(out, open(os.path.join(dst, "meta.json"), "w"), indent=1)
 print(dst, det.get("exit"), det.get("refuted_obligations"))
